@@ -482,7 +482,27 @@ def iter_describe(it, st, v):
             names = [f['name'] for f in it.ty(cfg.tid)['variants'][0]['fields']]
             w = cfg.fields[names.index('width')]
             h = cfg.fields[names.index('height')]
-            return dict(kind='plane_iter', n=X.binop('mul', w, h, wrap=False), w=w, h=h, plane=plane_ref, elem=None)
+            d = dict(kind='plane_iter', n=X.binop('mul', w, h, wrap=False), w=w, h=h, plane=plane_ref, elem=None)
+            def elem(st2, kk, d=d, plane_ref=plane_ref, w=w, h=h):
+                # the k-th item is plane.p(x, y) for some in-range (x, y): a generic in-range position stands for it
+                x = X.fresh(X.USIZE, 'px', 0, None); y = X.fresh(X.USIZE, 'py', 0, None)
+                st2.assume(X.binop('lt', x, w)); st2.assume(X.binop('lt', y, h))
+                pkey = None
+                want = it.ty(d_plane_elem(it, st2, d))['s']
+                for key, fn in it.crate.fns.items():
+                    if fn['def'] == 'v_frame::plane::Plane::<T>::p' and fn['targs'] and it.ty(fn['targs'][0])['s'] == want:
+                        pkey = key
+                if pkey is None:
+                    raise Unsupported('Plane::p body not available')
+                outs = it.call_fn(st2, pkey, [plane_ref, x, y])
+                if len(outs) != 1 or outs[0][0] is not st2:
+                    raise Unsupported('Plane::p with several outcomes')
+                sample = outs[0][1]
+                d['last'] = dict(x=x, y=y, sample=sample, w=w, h=h, plane=plane_ref)
+                d['last_pc_len'] = len(st2.pc)
+                return sample                      # PlaneIter yields the samples by value
+            d['elem'] = elem
+            return d
     return None
 
 @model('std::iter::Iterator::zip', doc='lock-step pairs; length = min of both')
